@@ -121,7 +121,8 @@ def gen_c17(rng, n, tier):
             (c, m, ins, declared, out), cls = combos[idx % len(combos)]
             idx += 1
             caller = r.choice(CALLERS[cls])
-            obj = r.choice(["c1", "c1:s1", "1356:c1:s1", "@ca1", "@ca1-0"])
+            # the object the call is about: an object of chain c1, or the caller itself ("self" permissions)
+            obj = r.choice(["c1", "c1:s1", "1356:c1:s1", "@ca1", "@ca1-0", "@" + caller, "@" + caller])
             args = []
             ok = True
             for t in ins:
@@ -350,6 +351,15 @@ def gen_c08(rng, n, tier):
                     tags.add("mal:ibtp")
                 else:
                     txs.append(f"ibtp ca1 c1:s1 c2:s1 1 req 0 - ok" if r.random() < 0.5 else f"xfer u0 u1 {r.choice(['1', 'abc', '-1'])}")
+                # a transaction that is not marked local gets its signature verified: valid, flipped, truncated, empty,
+                # by another key, or without a sender
+                if r.random() < 0.2 and not txs[-1].startswith(("raw", "sig:")):
+                    kind = r.choice(["ok", "bad", "short", "empty", "other", "nofrom"])
+                    txs[-1] = f"sig:{kind} " + txs[-1]
+                    tags.add("mal:sig-" + kind)
+                if r.random() < 0.05:
+                    txs.append(f"rawtd {signer} nil {r.choice([0, 0, 1])} 0 {r.choice(['1', '0', '~', '5'])} nil")
+                    tags.add("mal:no-receiver")
             ops.append("block " + " | ".join(txs))
         ops.append("q height")
         hs.append(History(ops, tags=tags))
@@ -498,7 +508,7 @@ def gen_msig(rng, n, tier):
     for nv in range(0, 5):
         vs = names[:nv]
         for k in range(0, 4):
-            for sg in itertools.product(["a", "b", "z", "junk", "w:a"], repeat=k):
+            for sg in itertools.product(["a", "b", "z", "junk", "w:a", "m:a"], repeat=k):
                 ops.append(f"msig {','.join(vs) or '[]'} {','.join(sg) or '-'}")
     ops += ["msig nil a", "msig bad a", "msig nil -"]
     hs.append(History(ops, tags={"msig", "exhaustive-small"}))
@@ -513,8 +523,10 @@ def gen_msig(rng, n, tier):
             sg = []
             for _ in range(k):
                 q = r.random()
-                if q < 0.6 and vs:
+                if q < 0.5 and vs:
                     sg.append(r.choice(vs))
+                elif q < 0.6 and vs:
+                    sg.append("m:" + r.choice(vs))
                 elif q < 0.75:
                     sg.append(r.choice(["x0", "x1", "y"]))
                 elif q < 0.85:
@@ -534,7 +546,8 @@ def mon_msig(h, obs):
             continue
         vs = [] if ws[1] == "[]" else ws[1].split(",")
         sg = [] if ws[2] == "-" else ws[2].split(",")
-        good = {s for s in sg if s in vs}          # junk / short / w:<k> / unregistered names never equal a validator name
+        # junk / short / w:<k> / unregistered names never equal a validator name; m:<k> is another signature by k
+        good = {(s[2:] if s.startswith("m:") else s) for s in sg if (s[2:] if s.startswith("m:") else s) in vs}
         need = (len(vs) - 1) // 3 if vs else 0
         want_ok = len(good) > need
         if (o == "ok") != want_ok:
